@@ -53,6 +53,21 @@ Definition imap_spec_b (d u p : str) (acc : bool) (r : auth_out) : bool :=
   | _ => match bound r with None => true | Some _ => false end
   end.
 
+(** premise on the database layer: EnsureUserAndMailboxes(local, domain)
+    returns the id of the row whose (username, domain) is exactly that pair,
+    or fails.  (GetOrCreateUserInitialized: SELECT, else INSERT, else on a
+    UNIQUE conflict SELECT again; never an id taken from anywhere else.)
+    Checked against the implementation on every run: the users row of
+    state.UserID is compared with the verified address in worlds with
+    enabled, disabled, provisioned, delivery-created and concurrently created
+    accounts. *)
+Definition ensure_sound (ens : ensure_fn) : Prop :=
+  forall l dm row, ens l dm = Some row -> row = (l, dm).
+
+(** the two behaviours of a sound EnsureUserAndMailboxes used in examples *)
+Definition ensure_ok : ensure_fn := fun l dm => Some (l, dm).
+Definition ensure_fails : ensure_fn := fun _ _ => None.
+
 (** ---- finding classes (behaviour of raven that violates the property) ---- *)
 Inductive finding :=
 | F_login_tokens.          (* LOGIN argument that is not one blank-free token *)
